@@ -39,6 +39,81 @@ except Exception:  # noqa: BLE001
     mk_oracle = None
 
 
+def handout_table():
+    """Translator: for every hand-out route of the provider MDIB and one object of every state / descriptor class in the
+    bundled MDIBs, the number of mutable objects (at any nesting depth, found with `is`) that the handed-out object
+    shares with the object stored in the MDIB. `descriptor_container` and `node` are references by design and no
+    container properties, they are not counted."""
+    import sharing
+    rows = []
+    for path in c02.MDIBS:
+        p = lb.Provider(mdib_path=path, start=False, role_providers=False)
+        m = p.mdib
+        w = tx.World(p, __import__('random').Random(7))
+        try:
+            by_cls = {}
+            for s in sorted(m.states.objects, key=lambda s: s.DescriptorHandle):
+                by_cls.setdefault(type(s).__name__, s)
+            for cname, s in sorted(by_cls.items()):
+                h = s.DescriptorHandle
+                kind = tx.kind_of(s)
+                mgr_name = {'metric': 'metric_state_transaction', 'alert': 'alert_state_transaction', 'component': 'component_state_transaction',
+                            'operational': 'operational_state_transaction', 'rt': 'rt_sample_state_transaction'}[kind]
+                # populate nested members first so that there is something to share
+                with getattr(m, mgr_name)() as mgr:
+                    st = mgr.get_state(h)
+                    w.mutate_state(st, 5)
+                table_obj = m.states.descriptor_handle.get_one(h)
+                res = m.transaction
+                rows.append(('result_vs_table', cname, len(sharing.sharing_matrix(res.all_states()[0], table_obj))))
+                rows.append(('result_vs_handed_out', cname, len(sharing.sharing_matrix(res.all_states()[0], st))))
+                rows.append(('handed_out_vs_table_after_commit', cname, len(sharing.sharing_matrix(st, table_obj))))
+                try:
+                    with getattr(m, mgr_name)() as mgr:
+                        st2 = mgr.get_state(h)
+                        rows.append(('get_state', cname, len(sharing.sharing_matrix(st2, table_obj))))
+                        raise tx.AppAbort
+                except tx.AppAbort:
+                    pass
+                ent = m.entities.by_handle(h)
+                rows.append(('entities.by_handle.state', cname, len(sharing.sharing_matrix(ent.state, table_obj))))
+                d_tab = m.descriptions.handle.get_one(h)
+                rows.append(('entities.by_handle.descriptor', type(d_tab).__name__, len(sharing.sharing_matrix(ent.descriptor, d_tab))))
+                try:
+                    with m.descriptor_transaction() as mgr:
+                        d2 = mgr.get_descriptor(h)
+                        rows.append(('get_descriptor', type(d_tab).__name__, len(sharing.sharing_matrix(d2, d_tab))))
+                        s3 = mgr.get_state(h)
+                        rows.append(('descriptor_tx.get_state', cname, len(sharing.sharing_matrix(s3, table_obj))))
+                        raise tx.AppAbort
+                except tx.AppAbort:
+                    pass
+            for c in sorted(m.context_states.objects, key=lambda c: c.Handle)[:3]:
+                with m.context_state_transaction() as mgr:
+                    cs = mgr.get_context_state(c.Handle)
+                    w.mutate_state(cs, 6)
+                tab = m.context_states.handle.get_one(c.Handle)
+                rows.append(('get_context_state_after_commit', type(c).__name__, len(sharing.sharing_matrix(cs, tab))))
+                rows.append(('context_result_vs_table', type(c).__name__, len(sharing.sharing_matrix(m.transaction.ctxt_updates[0], tab))))
+        finally:
+            w.close()
+    # one row per (route, class): the maximum over the MDIB files
+    agg = {}
+    for route, cls, n in rows:
+        agg[(route, cls)] = max(agg.get((route, cls), 0), n)
+    return sorted((r, c, n) for (r, c), n in agg.items())
+
+
+def translate(ctx):
+    lb.quiet()
+    rows = handout_table()
+    src = ('/-! generated by harness/props/c03.py: (hand-out route, class, number of mutable objects shared with the MDIB object) -/\n'
+           'namespace Sdc.Generated\n\ndef handOuts : List (String × String × Nat) := [\n'
+           + ',\n'.join(f'  ("{r}", "{c}", {n})' for r, c, n in rows) + '\n]\n\nend Sdc.Generated\n')
+    core.write_if_changed(core.GENERATED + '/HandOuts.lean', src)
+    ctx.notes['handout_rows'] = len(rows)
+
+
 def full_snapshot(w):
     m = w.mdib
     snap = c02.norm_snap(lb.snapshot(m))
